@@ -90,7 +90,12 @@ class Clause:
         self.id = cid
         self.kind = kind
         self.text = text.strip()
+        # the properties named in the id prefix (`C02+C14.x`) always count, next to the explicit list
         self.props = list(props)
+        m = re.match(r"^(C\d+(?:\+C\d+)*)\.", cid)
+        for pp in (m.group(1).split("+") if m else []):
+            if pp not in self.props:
+                self.props.append(pp)
         self.fn = fn
 
     def tagged(self, indent="        "):
